@@ -48,7 +48,7 @@ def configs(tier):
     out = []
     for sh in shapes:
         for axis in (0, 1, (0, 1)):
-            for kind in ('dict', 'list'):
+            for kind in ('dict', 'list', 'alias'):
                 for nj in (1, 2, 5):
                     if ntasks(sh, axis) > 6 and nj > 2:
                         continue        # 9 tasks with >2 workers: too many orders; covered with 1 and 2 workers
@@ -64,6 +64,13 @@ def configs(tier):
 def options_for(kind, sh, axis):
     if kind == 'dict':
         return copy.deepcopy(OPTS[1])
+    if kind == 'alias':      # one dict object repeated for every slice / signal
+        one = copy.deepcopy(OPTS[4])
+        if axis == 0:
+            return [one] * sh[0]
+        if axis == 1:
+            return [one] * sh[1]
+        return [[one] * sh[1] for _ in range(sh[0])]
     if axis == 0:
         return copy.deepcopy(OPTS[:sh[0]])
     if axis == 1:
@@ -78,17 +85,17 @@ def reference(sigs, opts, axis, kind):
     if axis == (0, 1):
         for i in range(n0):
             for j in range(n1):
-                o = copy.deepcopy(opts if kind != 'list' else opts[i][j])
+                o = copy.deepcopy(opts if kind not in ('list', 'alias') else opts[i][j])
                 exp[i][j] = compute_features(np.array(sigs[i, j]), FS, FR, return_samples=True, **o)
     elif axis == 0:
         for i in range(n0):
-            o = copy.deepcopy(opts if kind != 'list' else opts[i])
+            o = copy.deepcopy(opts if kind not in ('list', 'alias') else opts[i])
             tabs, _, _ = ref_epoched(sigs[i], FS, FR, o)
             for j in range(n1):
                 exp[i][j] = tabs[j]
     else:
         for j in range(n1):
-            o = copy.deepcopy(opts if kind != 'list' else opts[j])
+            o = copy.deepcopy(opts if kind not in ('list', 'alias') else opts[j])
             tabs, _, _ = ref_epoched(np.ascontiguousarray(sigs[:, j]), FS, FR, o)
             for i in range(n0):
                 exp[i][j] = tabs[i]
@@ -150,7 +157,7 @@ class Schedules3D(Space):
         def run():
             with contextlib.redirect_stdout(io.StringIO()):
                 if c['entry'] == '3d':
-                    return compute_features_3d(sigs.copy(), FS, FR, compute_features_kwargs=copy.deepcopy(opts), axis=axis,
+                    return compute_features_3d(sigs.copy(), FS, FR, compute_features_kwargs=opts if kind == 'alias' else copy.deepcopy(opts), axis=axis,
                                                return_samples=True, n_jobs=nj), None
                 bg = BycycleGroup(center_extrema='trough', thresholds=dict(S.T0))
                 if c['entry'] == 'group-refit':
